@@ -169,6 +169,8 @@ fn build(c: &Case, with_conditionals: bool) -> (EntitySpec, ReqSpec) {
         faults: vec![],
         tail: vec![],
         segments: 0,
+        counting_hint: false,
+        unfused_errors: false,
     };
     let mut req = ReqSpec::get().method(&c.method);
     if with_conditionals {
